@@ -488,3 +488,41 @@ for _p, _t in (("C20", "Added (C20-outbuf): appending output (re)adds the write 
                ("C34", "Added (C34-timer): a request's timeout is deleted only when the request is finished, suspended or re-transmitted on every path."),
                ("C38", "Added (C38-cachettl): every store of addresses into a cache entry is followed by arming the entry's expiry timer with the answer's TTL.")):
     _more(_p, _t)
+
+
+# ---- fourth round (batches 9-11 and the defects found on the way)
+_more("C12", "Added (C12-search-eol): evbuffer_search_eol on buffer images with concrete bytes — 7 contents x every two-chain layout x every start position x the styles ANY, CRLF, LF, NUL "
+             "(1484 cases): position and length equal the byte-string model, no byte outside the buffer's data is read.", "evaluation with byte memory and struct locals (K6)")
+_more("C13", "Added (C13-pending-kept): pending counts are dropped by evbuffer_invoke_callbacks_ only when no callback is registered; with callbacks (enabled or momentarily disabled) they are "
+             "reported now or kept and the deferred report scheduled.")
+_more("C15", "Added (C15-immutable-sticky): no store clears EVBUFFER_IMMUTABLE from a chain's flags.")
+_more("C16", "Added (C16-write-structure): evbuffer_write_atmost on 8 layouts x howmuch x {front frozen or not} x {kernel takes all / one / all but one / nothing / fails}: what is offered to "
+             "write/writev is a prefix of the content no longer than howmuch, nothing is offered while the front is frozen, afterwards the buffer holds exactly what the kernel did not take.", _HEAP)
+_more("C21", "Added (C21-reinit): re-initialisation clips a level to min(level, new maximum) (shared with C22-reconfigure).")
+_more("C22", "Added (C22-leave-group): a bufferevent leaves a rate-limit group with the group's suspension lifted, except on destruction.")
+_more("C23", "Added: header sections with obsolete line folding, and sections arriving in two reads cut at every line, give the same fields (C23-fieldname, folding cases).")
+_more("C24", "Added (C24-eof): evhttp_error_cb decision table — 912 combinations of connection state, event bits, chunked, ntoread and flags: an end of stream completes a response only when "
+             "the body is delimited by it (not chunked, no length); every other EOF/error/timeout fails the request exactly once.", "decision table by evaluation (K6)")
+_more("C26", "Added (C26-format): numbers formatted into fixed buffers (chunk-size lines, Content-Length, ports) fit in the worst case or the result is checked.")
+_more("C27", "Added (C27-retry-state): retry_cnt != 0 implies that the retry timer is pending (cleanup leaves the timer armed or the count at 0; retry_ev is deleted only at teardown). Found and "
+             "repaired: after exhausted retries every later request on the connection was queued forever.")
+_more("C31", "Added (C31-messages): message reassembly — ws_evhttp_read_cb with the real get_ws_frame evaluated on an abstract input stream for 15 frame sequences (fragmentation with continuation "
+             "frames, interleaved ping/pong, close followed by data, malformed fragmentation, fragmented control frame, reserved opcode, unmasked frames), each in one read, cut in two at every "
+             "byte and byte by byte: the messages delivered and the close equal an RFC 6455 decoder. Found and repaired: conforming fragmented messages closed the connection, a new data frame "
+             "inside a fragmented message was concatenated, frames after a Close were still delivered. The reassembly clause is no longer declined for this family.",
+      "evaluation of the reader on an abstract byte stream with in-place unmasking, under every two-way segmentation (K6)")
+_more("C35", "Added (C35-sections): evdns_server_request_add_reply on every sequence of up to three additions over the three sections — each section's list holds exactly its own records in "
+             "order, counted.", "evaluation on an abstract heap (K6)")
+_more("C36", "Added (C36-encode, C36-search-name): dnsname_to_labels on 17 name forms writes exactly the wire form or fails (empty interior labels, 64-byte labels, 256-byte names); search "
+             "candidates are <base without trailing dot>.<domain>. Found and repaired: names with an empty label were transmitted malformed.", "evaluation with byte memory (K6)")
+_more("C37", "Added (C37-tcpframe): DNS over TCP — tcp_read_message driven as its callers drive it on a stream of three messages (5, 300, 3 bytes) cut at every byte and fed bytewise: the messages "
+             "delivered are exactly the length-prefixed messages of the stream.", "evaluation under segmentation (K6)")
+_more("C40", "Added (C40-pton-strict): evutil_inet_pton evaluated on 78 IPv4/IPv6 text forms against a strict reference parser (sscanf/strtol modelled with their C semantics). Found and "
+             "repaired: signs, white space, wrapping components, 0x groups and a trailing colon were accepted.", "evaluation on abstract strings against a reference parser (K6)")
+_more("C42", "Added (C42-records): evtag_unmarshal_header / evtag_consume / evtag_peek_length on records cut short at every length and split over two chains: accepted exactly when complete, no "
+             "byte outside the buffer's data read (reads go through the abstract byte memory).", "evaluation with byte memory on abstract evbuffers (K6/K4)")
+_more("C43", "Added (C43-reschedule): after every client-side completion the pool's queue is looked at again. Found and repaired: requests queued behind a request that could not be started "
+             "never completed.")
+_more("C44", "Added: a bare --refcnt is only allowed under the failed 'last reference' test taken after the user callback.")
+_more("C45", "Added (C45-cursor): base->watcher_next is written only by the traversals and evwatch_free's repair.")
+_more("C46", "Added (C46-snapshot): the bound of the random start and the scan is the count handed to select()/poll(), not re-read after the wait.")
